@@ -1,7 +1,7 @@
 (* Props/C05.v — property C05: collection deltas are coherent with collection values at every tick.
    Statements only; every proof is one [exact].  The models are the mirrors of Coll.v / Window.v;
    a history is a list of engine cycles (time, mutations) at strictly increasing times. *)
-Require Import Base Coll CollOld Window Fixed CollFacts TsdFacts TsdValueFacts WindowFacts FixedFacts.
+Require Import Base Coll CollOld Window DWindow Fixed CollFacts TsdFacts TsdValueFacts WindowFacts DWindowFacts FixedFacts.
 
 (* ================================================================== TSS *)
 (* [tss_trace tss_empty h] lists, for every cycle of the history h, the storage before the cycle, the
@@ -202,6 +202,43 @@ Theorem window_valid_only_once_min_reached : forall n m h, (0 < n)%nat -> (m <= 
 Proof. exact WindowFacts.window_valid_threshold_l. Qed.
 Print Assumptions window_valid_only_once_min_reached.
 
+(* ================================================================== duration (time-based) window *)
+(* [dw_content] is the logical contents of the ring as (time, value) pairs, oldest first.  [spec_dwhist R h []] is
+   the reference: per accepted push at time t, drop every pair older than t - R and append (t, v); a clear empties
+   it (protocol: one tick per evaluation time, a clear may be followed by one push).  The theorem holds whatever
+   head advances, wrap-arounds and growths (0 -> 4 -> 8 ...; relocation in logical order) the history causes. *)
+Theorem dwindow_content : forall R m h, wincreasing MIN_DT h ->
+  dw_content (dwin_run R m h) = spec_dwhist R h [] /\ dw_minr (dwin_run R m h) = m /\ DWInv (dwin_run R m h).
+Proof. exact DWindowFacts.dwindow_content_l. Qed.
+Print Assumptions dwindow_content.
+
+(* storage level, from any ring state (any head / size / capacity): a push drops exactly the expired prefix and
+   appends the new pair, in order *)
+Theorem dwindow_push_keeps_unexpired : forall v t w, DWInv w ->
+  DWInv (dw_push v t w) /\ dw_content (dw_push v t w) = spec_dpush (dw_range w) t v (dw_content w) /\
+  dw_range (dw_push v t w) = dw_range w /\ dw_minr (dw_push v t w) = dw_minr w /\ dw_lmt (dw_push v t w) = dw_lmt w.
+Proof. exact DWindowFacts.dw_push_content. Qed.
+Print Assumptions dwindow_push_keeps_unexpired.
+
+(* the per-tick delta: removed_value is the LAST pair that expired in this push; if nothing expired the stash
+   (and its time) is left alone, so has_removed_value(t) stays false *)
+Theorem dwindow_removed_value : forall v t w, DWInv w ->
+  let k := count_expired (t - dw_range w) (dw_times w) in
+  (k = 0%nat -> dw_ev (dw_push v t w) = dw_ev w /\ dw_evt (dw_push v t w) = dw_evt w) /\
+  ((0 < k)%nat -> dw_ev (dw_push v t w) = Some (nth (k - 1) (dw_values w) 0) /\ dw_evt (dw_push v t w) = t /\
+                  dw_has_removed t (dw_push v t w) = negb (t =? MIN_DT)).
+Proof. exact DWindowFacts.dwindow_push_removed_l. Qed.
+Print Assumptions dwindow_removed_value.
+
+(* valid (all_valid) iff non-empty and the contents span at least the minimum range *)
+Theorem dwindow_valid_iff : forall w,
+  dw_all_valid w = match map fst (dw_content w) with
+                   | [] => false
+                   | first :: _ => if dw_minr w <=? 0 then true else dw_minr w <=? last (map fst (dw_content w)) 0 - first
+                   end.
+Proof. exact DWindowFacts.dwindow_valid_l. Qed.
+Print Assumptions dwindow_valid_iff.
+
 (* ================================================================== non-vacuity *)
 (* a history with an add-then-remove of a new element, a remove-then-add of an existing one, a longer
    alternation, a re-insertion after the deferred erase and growth past the first capacity of 8 *)
@@ -252,6 +289,18 @@ Example ex_tsd_child_only_cycle :
       (tsd_trace tsd_empty h)
   = [ ([1; 2; 3], [], Some 20); ([1; 2], [3], Some 21); ([2], [], Some 22); ([], [], Some 22) ].
 Proof. vm_compute. split; [repeat split; reflexivity|reflexivity]. Qed.
+
+(* range 10: an old element, a cluster, a jump that expires exactly the old one (head advances, the ring of capacity 4
+   is full and wrapped), then a push that expires nothing: growth 4 -> 8 while wrapped *)
+Example ex_dwindow_growth_while_wrapped :
+  let h := [ (1, [WPush 11]); (5, [WPush 12]); (6, [WPush 13]); (7, [WPush 14]); (12, [WPush 15]); (13, [WPush 16]); (30, [WPush 17]) ] in
+  wincreasing MIN_DT h /\
+  (let w := dwin_run 10 3 (firstn 5 h) in (dw_head w, dw_size w, length (dw_buf w), dw_content w, dw_ev w))
+    = (1%nat, 4%nat, 4%nat, [(5, 12); (6, 13); (7, 14); (12, 15)], Some 11) /\
+  (let w := dwin_run 10 3 (firstn 6 h) in (dw_head w, dw_size w, length (dw_buf w), dw_content w, dw_all_valid w))
+    = (0%nat, 5%nat, 8%nat, [(5, 12); (6, 13); (7, 14); (12, 15); (13, 16)], true) /\
+  (let w := dwin_run 10 3 h in (dw_content w, dw_ev w, dw_all_valid w)) = ([(30, 17)], Some 16, false).
+Proof. vm_compute. repeat split; reflexivity. Qed.
 
 Example ex_window :
   let h := [ (1, [WPush 10]); (2, [WPush 11]); (3, []); (4, [WPush 12]); (5, [WPush 13; WPush 14]); (7, [WClear; WPush 15]) ] in
